@@ -287,6 +287,7 @@ func replay(lines []string) []caseOut {
 		if c == nil {
 			continue
 		}
+		c.nf = kvOf(ws, "nf")
 		switch ws[0] {
 		case "start":
 			h := c.height
